@@ -219,7 +219,9 @@ class BO(Conversions):
         super().__setitem__(key, value)
 
         for i in key:
-            if i not in self._mapping:
+            # only label what the matrix layer registered as a variable (a
+            # zero value or a label that squashes away registers nothing)
+            if i not in self._mapping and i in self._variables:
                 self._mapping[i] = self._next_label
                 self._reverse_mapping[self._next_label] = i
                 self._next_label += 1
